@@ -836,6 +836,20 @@ pub fn exec_add(a_store: &mut AnnotationStore, b_store: &mut AnnotationStore, x:
     vec![first, second]
 }
 
+/// result type of the level that binds the variable (ANNOTATION when no level does)
+pub fn var_rt(v: i64, sub: &Q) -> i64 {
+    let mut q = Some(sub);
+    while let Some(x) = q {
+        if x.name == v {
+            return x.rt;
+        }
+        q = x.sub.as_deref();
+    }
+    0
+}
+
+/// STAMQL has DELETE ANNOTATION only (parse_delete refuses every other type); query_mut() also
+/// takes DELETE queries over data, keys, resources and data sets built with the constructors
 pub fn delete_text(v: i64, sub: &Q, nosub: bool) -> Option<String> {
     if nosub {
         Some(format!("DELETE ANNOTATION ?{}", vname(v)))
@@ -844,16 +858,50 @@ pub fn delete_text(v: i64, sub: &Q, nosub: bool) -> Option<String> {
     }
 }
 
+/// DELETE <type of the variable> ?v { sub } through the constructors
+fn delete_prog_outcome(store: &mut AnnotationStore, v: i64, sub: &Q) -> i64 {
+    let ty = rtype(var_rt(v, sub));
+    let query = Query::new(QueryType::Delete, Some(ty), Some(leak(vname(v)))).with_subquery(q_prog(sub));
+    let st = store;
+    guard(move || match st.query_mut(query) {
+        Ok(iter) => {
+            let _n = iter.count();
+            1
+        }
+        Err(_) => 0,
+    })
+    .unwrap_or(-1)
+}
+
+enum Del {
+    Ann(AnnotationHandle),
+    Res(TextResourceHandle),
+    Set(AnnotationDataSetHandle),
+    Data(AnnotationDataSetHandle, AnnotationDataHandle),
+    Key(AnnotationDataSetHandle, DataKeyHandle),
+}
+
 pub fn exec_delete(a_store: &mut AnnotationStore, b_store: &mut AnnotationStore, v: i64, sub: &Q, nosub: bool) -> Vec<Sx> {
-    let first = match delete_text(v, sub, nosub) {
-        None => l(vec![a(-5)]),
-        Some(text) => {
-            let code = mut_outcome(a_store, leak(text));
-            if code == -1 {
-                l(vec![a(-1)])
-            } else {
-                l(vec![a(code), state_sx(a_store)])
+    // as text when the variable is an annotation (or a text selection: an error), else built
+    let by_text = nosub || matches!(var_rt(v, sub), 0 | 5);
+    let first = if by_text {
+        match delete_text(v, sub, nosub) {
+            None => l(vec![a(-5)]),
+            Some(text) => {
+                let code = mut_outcome(a_store, leak(text));
+                if code == -1 {
+                    l(vec![a(-1)])
+                } else {
+                    l(vec![a(code), state_sx(a_store)])
+                }
             }
+        }
+    } else {
+        let code = delete_prog_outcome(a_store, v, sub);
+        if code == -1 {
+            l(vec![a(-1)])
+        } else {
+            l(vec![a(code), state_sx(a_store)])
         }
     };
     if nosub {
@@ -861,23 +909,50 @@ pub fn exec_delete(a_store: &mut AnnotationStore, b_store: &mut AnnotationStore,
     }
     let name = leak(vname(v));
     let second = guard(|| {
-        // every row must bind the variable to an annotation; otherwise nothing is removed
-        let handles: Option<Vec<AnnotationHandle>> = {
+        // every row must bind the variable to an item that can be removed; otherwise nothing is removed
+        let items: Option<Vec<Del>> = {
             match b_store.query(q_prog(sub)) {
                 Err(_) => None,
                 Ok(iter) => iter
                     .map(|row| match row.get_by_name(name) {
-                        Ok(QueryResultItem::Annotation(x)) => Some(x.handle()),
+                        Ok(QueryResultItem::Annotation(x)) => Some(Del::Ann(x.handle())),
+                        Ok(QueryResultItem::TextResource(x)) => Some(Del::Res(x.handle())),
+                        Ok(QueryResultItem::AnnotationDataSet(x)) => Some(Del::Set(x.handle())),
+                        Ok(QueryResultItem::AnnotationData(x)) => Some(Del::Data(x.set().handle(), x.handle())),
+                        Ok(QueryResultItem::DataKey(x)) => Some(Del::Key(x.set().handle(), x.handle())),
                         _ => None,
                     })
                     .collect(),
             }
         };
-        match handles {
+        match items {
             None => l(vec![a(0), state_sx(b_store)]),
-            Some(handles) => {
-                for h in handles {
-                    let _ = b_store.remove_annotation(h);
+            Some(items) => {
+                // the direct calls, for what is still there
+                for it in items {
+                    match it {
+                        Del::Ann(h) => {
+                            let _ = b_store.remove_annotation(h);
+                        }
+                        Del::Res(h) => {
+                            let _ = b_store.remove_resource(h);
+                        }
+                        Del::Set(h) => {
+                            let _ = b_store.remove_dataset(h);
+                        }
+                        Del::Data(sh, h) => {
+                            let there = b_store.dataset(sh).map(|st| st.annotationdata(h).is_some()).unwrap_or(false);
+                            if there {
+                                let _ = b_store.remove_data(sh, h, true);
+                            }
+                        }
+                        Del::Key(sh, h) => {
+                            let there = b_store.dataset(sh).map(|st| st.key(h).is_some()).unwrap_or(false);
+                            if there {
+                                let _ = b_store.remove_key(sh, h, true);
+                            }
+                        }
+                    }
                 }
                 l(vec![a(1), state_sx(b_store)])
             }
